@@ -157,8 +157,14 @@ package json
 // A string value: in full-expression mode (a non-nil context) its content goes through the native
 // template parser exactly once - whatever it contains - and in literal-only mode it is the string
 // itself, verbatim. strVal(s) is the cty string value of s (uninterpreted).
+// (C19) the diagnostics built here (duplicate / invalid object keys, where the key can be computed
+// from a marked value by interpolation) contain no string taken out of a value, unless the value
+// is known to carry no mark. Assumed, as for every Expression.Value: the result is not laundered.
 // verif:func (*expression).Value
 //@ nosafety
+//@ taint
+//@ props C13,C15,C06,C19
+//@ assumes notLaundered: !laundered(ret0)
 //@ ensures template: typeis(old(e.src), ptr(stringVal)) && ctx != nil ==> tmplParses == old(tmplParses) + 1
 //@ ensures verbatim: typeis(old(e.src), ptr(stringVal)) && ctx == nil ==> ret0 == strVal(old(unbox(e.src, ptr(stringVal)).Value)) && len(ret1) == 0
 
@@ -261,3 +267,4 @@ package json
 //@ nosafety
 //@ ensures visible: forall k string :: { has(ret0, k) } has(ret0, k) ==> !has(b.hiddenAttrs, k) && k != "//"
 //@ loop 1 invariant attrs != nil && fresh(attrs) && (forall k string :: { has(attrs, k) } has(attrs, k) ==> !has(b.hiddenAttrs, k) && k != "//")
+
